@@ -1,5 +1,6 @@
 import JsonPathVerif.Lex.Int
 import JsonPathVerif.Lex.Names
+import JsonPathVerif.Lex.Tokens
 import JsonPathVerif.Parser
 import JsonPathVerif.Validity
 /-! # C06 – every valid RFC 9535 query is accepted (lexical layers proved on the GENERATED grammar)
@@ -41,6 +42,27 @@ theorem C06_partial_function_name (c : Ctx) (pos : Nat) (r r' : Rest) (h : rfcFu
   cases hi : function_name_ c pos r with
   | none => simp [hi] at this
   | some s => simp [hi] at this; exact ⟨s, rfl, this⟩
+
+/-- layers 2-4, completeness: whatever the RFC token grammar (Appendix A, `RfcLex`) lexes as `int`, `number` or `string-literal`
+the grammar's rule accepts, consuming exactly the same lexeme, in every parsing context: all number formats, both quote styles,
+every escape incl. lower-case hex and surrogate pairs -/
+theorem C06_partial_tokens (c : Ctx) (pos : Nat) (r r' : Rest) :
+    (RfcLex.int r = some r' → ∃ s, int_ c pos r = some s ∧ s.rest = r') ∧
+    (RfcLex.number r = some r' → ∃ s, number_ c pos r = some s ∧ s.rest = r') ∧
+    (RfcLex.stringLiteral r = some r' → ∃ s, string_ c pos r = some s ∧ s.rest = r') := by
+  refine ⟨fun h => ?_, fun h => ?_, fun h => ?_⟩
+  · have := int_denotes c pos r; unfold lexR at this; rw [h] at this
+    cases hi : int_ c pos r with
+    | none => simp [hi] at this
+    | some s => simp [hi] at this; exact ⟨s, rfl, this⟩
+  · have := number_denotes c pos r; unfold lexR at this; rw [h] at this
+    cases hi : number_ c pos r with
+    | none => simp [hi] at this
+    | some s => simp [hi] at this; exact ⟨s, rfl, this⟩
+  · have := string_denotes c pos r; unfold lexR at this; rw [h] at this
+    cases hi : string_ c pos r with
+    | none => simp [hi] at this
+    | some s => simp [hi] at this; exact ⟨s, rfl, this⟩
 
 /-- non-vacuity: `-12]` is lexed up to `]` -/
 example : rfcInt "-12]".toList = some "]".toList := by decide
